@@ -1,7 +1,7 @@
 """C05 - sensor update is the Kalman correction, for any number of readings."""
 from __future__ import annotations
 
-from checks.ekf_common import COMMON_ASSUMPTIONS, TRUSTED, triage_generic
+from checks.ekf_common import COMMON_ASSUMPTIONS, TRUSTED, magnitude_native, triage_generic
 from contracts import pyekf
 from pvc.driver import Finding
 from replay import kalman
@@ -39,7 +39,7 @@ def check(run):
     rep = run.verify(pyekf.SensorModelInit(), pyekf.sensor_init_callees())
     triage_generic(run, rep, lambda shape, seed, container="set": native([max(shape[0], 2), shape[1], shape[2], max(shape[3], 2)], seed, container=container), "SensorModel.__init__")
     rep = run.verify(pyekf.ConstructSensors(), pyekf.sensors_callees())
-    triage_generic(run, rep, lambda shape, seed, container="set": native([max(shape[0], 2), shape[1], shape[2], max(shape[3], 2)], seed, container=container), "_construct_sensors")
+    triage_generic(run, rep, lambda shape, seed, container="set": native([max(shape[0], 2), shape[1], shape[2], max(shape[3], 2)], seed, container=container), "_construct_sensors", extra_native=[magnitude_native(run.seed)])
     from checks import C03
 
     rep = run.verify(pyekf.JacobianContract("sensor_jacobian"), cs)
@@ -64,6 +64,10 @@ def check(run):
 
 def replay_file(payload):
     inp = payload["inputs"]
+    if inp.get("magnitude_jacobians"):
+        from checks.ekf_common import replay_magnitude
+
+        return replay_magnitude(inp)
     if inp.get("sequence"):
         from checks.ekf_common import replay_sequence
 
